@@ -152,7 +152,7 @@ CHECKS["C09"] = {
     "rule": "case = (file, damage per chunk, length change, detached?, wrong data digest?, validator sequence, read sizes). Non-trivial = at least one intact and one damaged chunk, or a truncation inside a chunk; distinct by choice-sequence hash.",
     "assumptions": ["no hash collisions"],
     "runs": [
-        {"bin": "asan/C09", "cases": P(6000, 60000), "procs": P(8, 16), "size": 70, "shrink_budget": 300},
+        {"bin": "asan/C09", "cases": P(6000, 25000), "procs": P(8, 16), "size": 70, "shrink_budget": 300},
     ],
     "extra_targets": ["asan/tools/zck_read_header"],
 }
